@@ -37,6 +37,24 @@ inductive AExpr
   | other (s : String)
 deriving DecidableEq, Repr
 
+/-- the library functions an angle expression may call (numpy / math at run time; `Real` ones in proofs) -/
+structure Trig (α : Type) where
+  radians : α → α
+  tan : α → α
+  cos : α → α
+  sin : α → α
+
+/-- value of an anchored angle expression at `max_angle_degrees = deg`; `none` for syntax the translator did
+not recognise -/
+def AExpr.eval {α : Type} [Mul α] (T : Trig α) (deg : α) : AExpr → Option α
+  | .deg => some deg
+  | .radians a => (a.eval T deg).map T.radians
+  | .tan a => (a.eval T deg).map T.tan
+  | .cos a => (a.eval T deg).map T.cos
+  | .sin a => (a.eval T deg).map T.sin
+  | .sq a => (a.eval T deg).map (fun x => x * x)
+  | .other _ => none
+
 /-- the distance pre-filter of a site: an explicit comparison `dist <cmp> r`, or the closed-ball
 KD-tree query `query_ball_point(source_points, r)` -/
 inductive Ball
